@@ -24,9 +24,10 @@ type funcInfo struct {
 }
 
 type varInfo struct {
-	expr ast.Expr
-	typ  ast.Expr
-	file *ast.File
+	expr    ast.Expr
+	typ     ast.Expr
+	file    *ast.File
+	isConst bool
 }
 
 type pkgInfo struct {
@@ -115,7 +116,7 @@ func (ld *loader) load(dir, primary string) (*pkgInfo, error) {
 							if _, dup := p.vars[nm.Name]; dup {
 								continue
 							}
-							vi := &varInfo{typ: s.Type, file: f}
+							vi := &varInfo{typ: s.Type, file: f, isConst: d.Tok == token.CONST}
 							if i < len(s.Values) && len(s.Values) == len(s.Names) {
 								vi.expr = s.Values[i]
 							}
